@@ -50,7 +50,7 @@ BUILT = {
   design="DESIGN.md section 5, C09"),
  "C10": dict(
   level="model_checking",
-  text="FrameImpl.tla transcribes the decoder's reader (binary.Read of the size byte, io.ReadFull of the header, fill with min(buffer, limit - n), readByte/readFull, checkCRC, the DecodeChained loop) against an environment that answers every Read with any 1..req available bytes, EOF or a fault (optionally together with the last bytes). TLC checks NeverPastFrame, SuccessConsumesExactly, CleanEndIsOk, PartialContent and termination for every cut point, every fault point and every chunking of small chains (the state is position/buffered/fetched, so 2^n chunkings collapse to O(n^2) states). Recorded calls of the real code (valid files followed by trailing bytes x 10 chunk scripts x 5 entry points; chains of 2-3 files) are validated by TLC: every Read request ends inside its frame, success consumes header+data+2, every chained file equals the Contract's decode; chained results are also compared with the same bytes decoded alone, and DecodeHeader / DecodeHeaderAndFileID with the Contract's header and file_id.",
+  text="FrameImpl.tla transcribes the decoder's reader (binary.Read of the size byte, io.ReadFull of the header, fill with min(buffer, limit - n), readByte/readFull, checkCRC, the DecodeChained loop) against an environment that answers every Read with any 1..req available bytes, EOF or a fault (optionally together with the last bytes). TLC checks NeverPastFrame, SuccessConsumesExactly, CleanEndIsOk, PartialContent and termination for every cut point, every fault point and every chunking of small chains (the state is position/buffered/fetched, so 2^n chunkings collapse to O(n^2) states). Recorded calls of the real code (valid files followed by trailing bytes x 10 chunk scripts x 5 entry points; chains of 2-3 files) are validated by TLC: every Read request ends inside its frame, success consumes header+data+2, every chained file equals the Contract's decode; chained results are also compared with the same bytes decoded alone (fixed chains put files whose first records lean on no reference behind files full of timestamps), DecodeHeader / DecodeHeaderAndFileID with the Contract's header and file_id and with what Decode reports; consumption is also checked behind seekable readers, under every Decode option set and for frames without data.",
   note="Trusted: TLC. FrameImpl is bound to the code through the Contract-level read discipline on all recorded Read sequences, and step by step (Trace_FrameImpl: the recorded Read requests and answers must be a behaviour of FrameImpl) on a sample of <= 60 calls per run; disagreement there is reported as model drift.",
   technique="TLA+ reader model (FrameImpl) exhaustively checked by TLC + TLC trace validation of recorded Read sequences and results",
   design="DESIGN.md section 5, C10"),
@@ -92,7 +92,7 @@ BUILT = {
   design="DESIGN.md section 5, C02"),
  "C03": dict(
   level="model_checking",
-  text="FitRef!Deliver states the routing contract over a schema that is derived by reflection from the container struct types (not from the add switches). TLC validates recorded Decode calls: all 256 file-type values (accepted iff one of the 17, NewFile agreeing), and for each of the 17 file types streams carrying every known message type 2-3 times plus unknown messages and later file_id records (other type, same type, invalid type, no type field) in seeded interleavings, definitions that carry a few or all fields of the message (timestamps not increasing, small repeating message_index values), a first file_id without type field; slot membership, order, counts, last-wins for single slots, the reported file type and the set of succeeding accessors are compared.",
+  text="FitRef!Deliver states the routing contract over a schema that is derived by reflection from the container struct types (not from the add switches). TLC validates recorded Decode calls: all 256 file-type values (accepted iff one of the 17, NewFile agreeing), and for each of the 17 file types streams carrying every known message type 2-3 times plus unknown messages and later file_id records (other type, same type, invalid type, no type field) in seeded interleavings, definitions that carry a few or all fields of the message (timestamps not increasing, small repeating message_index values), a first file_id without type field; slot membership, order (a message found at another position of its slot is reported as a stream-order violation), counts, last-wins for single slots, the reported file type and the set of succeeding accessors are compared.",
   note="Trusted: TLC, reflection-derived schema. Interleavings are sampled (seeded), the (file type, message type) matrix is complete in every run.",
   technique="TLA+ routing contract (FitRef!Deliver, FitProfile!RouteTab) + TLC trace validation over the complete file-type x message-type matrix",
   design="DESIGN.md section 5, C03"),
@@ -110,7 +110,7 @@ BUILT = {
   design="DESIGN.md section 5, C13"),
  "C16": dict(
   level="model_checking",
-  text="FitRef counts unknown messages (per data record of a message number absent from the profile) and unknown fields (per record of a known message, per unlisted field number); TLC compares the sorted lists with what the real decoder reports, exactly on success and within the record in flight on failure. Every input (generated with many unknown items, cut or bit-flipped part-way, device files, compressed-timestamp streams) is decoded under all 8 option combinations; each call is validated against the same Contract and the 8 results are compared with each other (messages, error, bytes consumed).",
+  text="FitRef counts unknown messages (per data record of a message number absent from the profile) and unknown fields (per record of a known message, per unlisted field number); TLC compares the sorted lists with what the real decoder reports, exactly on success and within the record in flight on failure. Every input (generated with many unknown items, cut or bit-flipped part-way, device files, compressed-timestamp streams) is decoded under all 8 option combinations; each call is validated against the same Contract and the 8 results are compared with each other (messages, error incl. its text, bytes consumed); chains of files go through DecodeChained under the same 8 sets (the options hold for every file of a chain). The logger formats its arguments as a real one does.",
   note="Trusted: TLC. Logger output itself is discarded (a Logger that does nothing).",
   technique="TLA+ counters in FitRef + TLC trace validation under all 8 option sets + cross-option comparison",
   design="DESIGN.md section 5, C16"),
@@ -122,7 +122,7 @@ BUILT = {
   design="DESIGN.md section 5, C18"),
  "C14": dict(
   level="model_checking",
-  text="TLC checks NibStep (transcription of dyncrc16.updateByte) = BitStep (bit-serial CRC-16/ARC definition) = TabStep on all 65536x256 pairs (thorough; 65536x16 quick), linearity, the residue lemma and the streaming machine's partition invariant on a small alphabet; the real package is then bound to the spec twice: all 16.7M (state, byte) transitions of the real code are compared with the byte table TLC derived from the definition, and operation logs of the real Hash16 (writes in random partitions, Reset, Sum, Sum16, Checksum, residue) are validated event by event against CrcStream by TLC.",
+  text="TLC checks NibStep (transcription of dyncrc16.updateByte) = BitStep (bit-serial CRC-16/ARC definition) = TabStep on all 65536x256 pairs (thorough; 65536x16 quick), linearity, the residue lemma and the streaming machine's partition invariant on a small alphabet; the real package is then bound to the spec twice: all 16.7M (state, byte) transitions of the real code are compared with the byte table TLC derived from the definition, and operation logs of the real Hash16 (writes in random partitions incl. the running sum written as data in either byte order, io.Copy / io.CopyN / io.WriteString feeding, Reset, Sum, Sum16, Checksum, residue, hashes obtained right after the library's own failing checks) are validated event by event against CrcStream by TLC.",
   note="Trusted: TLC + Bitwise module; the hash's state is the 16-bit register Sum16 exposes (reached through 2-byte prefixes, checked to be a bijection). Quick tier checks the TLA-side step equivalence on 16 byte values per state; the real-code transition sweep is exhaustive in both tiers.",
   technique="TLA+ spec (Crc16, CrcStream) + TLC exhaustive lemmas + exhaustive replay of the spec's step table into the real code + TLC trace validation of recorded operation logs",
   design="DESIGN.md section 5, C14"),
